@@ -276,4 +276,11 @@ theorem c13_tlv_roundtrip (fs : List (Nat × Bytes))
 
 example : ∀ f ∈ [((1 : Nat), ([117, 49] : Bytes)), (200, [])], f.1 < 256 ∧ f.2.length < 4294967296 := by decide
 
+/-- the regenerated command-type table is usable by the judge: no duplicates, every
+    TLV-exempt type is a known type, every type fits the one-byte header field -/
+theorem c13_type_table_sane :
+    knownTypes.Nodup ∧ (∀ t ∈ Gen.C13.nonTLVTypes, t ∈ knownTypes) ∧ (∀ t ∈ knownTypes, t < 256) ∧
+    knownTypes ≠ [] := by
+  decide
+
 end WK.C13
